@@ -36,11 +36,23 @@ class Pipe:
         self.producer = None
         self.paused = False
         self.written = 0
+        self.prod_paused = False    # we told the registered producer to pause (send buffer "full")
 
     def write(self, data):
         if not self.closed and not self.lost:
             self.peer.buf.append(data)
             self.written += len(data)
+            if self.net.throttle and self.producer is not None and not self.prod_paused:
+                # back-pressure: the send buffer is full after every write until the schedule drains it
+                self.prod_paused = True
+                self.producer.pauseProducing()
+
+    def drain(self):
+        if self.prod_paused and self.producer is not None and not self.lost:
+            self.prod_paused = False
+            self.producer.resumeProducing()
+            return True
+        return False
 
     def writeSequence(self, seq):
         for d in seq:
@@ -59,6 +71,7 @@ class Pipe:
 
     def unregisterProducer(self):
         self.producer = None
+        self.prod_paused = False
 
     def pauseProducing(self):
         self.paused = True
@@ -96,6 +109,7 @@ class Net:
         self.links = []         # (Pipe a, Pipe b)
         self.closing = []
         self.nlinks = 0
+        self.throttle = False
 
 
 class Reactor(Clock):
@@ -369,6 +383,10 @@ class DWorld:
                 if t in self.net.closing:
                     self.lose(t.link)
                     prog = True
+            for (a, b) in list(self.net.links):
+                for t in (a, b):
+                    if t.drain():
+                        prog = True
             zero = [dc for dc in self.reactor.getDelayedCalls() if dc.getTime() <= self.reactor.seconds()]
             if zero:
                 self.reactor.advance(0)
